@@ -30,7 +30,7 @@ ASSUMPTIONS = ["files without any primary record are outside the domain (the ave
 
 
 def plan(tier):
-    return {"cases": 240 if tier == "quick" else 3000, "shards": 16,
+    return {"cases": 1000 if tier == "quick" else 3000, "shards": 16,
             "shard_budget_s": 300 if tier == "quick" else 1800}
 
 
